@@ -711,6 +711,16 @@ fn build_c04(tier: &str) -> (Vec<Job>, Value) {
             let per = rows.len();
             chunk_docs("ans", 80, rows, per, o, false, "text, rows of blanks in several attributes, text", &mut docs);
         }
+        // a trailing run of blanks on black in which a blank further left blinks and the last column does not
+        let mut blink_blank = Cell::new(32, 7, 0);
+        blink_blank.blink = true;
+        let blink_rows: Vec<Vec<TCell>> = vec![
+            std::iter::repeat(t(Cell::new(b'A' as u32, 7, 0))).take(10).chain(std::iter::repeat(t(blink_blank)).take(30)).chain(std::iter::repeat(t(Cell::new(32, 7, 0))).take(40)).collect(),
+            std::iter::repeat(t(blink_blank)).take(79).chain([t(Cell::new(32, 7, 0))]).collect(),
+            vec![t(Cell::new(b'z' as u32, 7, 0)); 3],
+        ];
+        n8 += 3;
+        chunk_docs("ans", 80, blink_rows, 3, o, false, "blinking blanks inside the trailing run of blanks", &mut docs);
         let bold_rows: Vec<Vec<TCell>> = vec![(0..16u32).map(|fg| t(Cell::new(0xDB, fg % 8, (fg / 8) % 8).bold())).chain((0..8u32).map(|fg| t(Cell::new(b'x' as u32, fg, 1).bold()))).collect()];
         n8 += 1;
         chunk_docs("ans", 80, bold_rows, 1, o, false, "[pal4] bold cells of every dark colour", &mut docs);
